@@ -75,6 +75,16 @@ T('C14',
   'Model checking over inputs, configurations and histories: every supported container (pickle, HDF5 with its pressure unit and name encodings, Exo-Transmit text, pickle and HDF5 k-tables, CIA pickle .db and HITRAN .cia with per-temperature wavenumber ranges and block orders) written by the harness from one logical SI table loads - directly, through discover() and through the caches - to the same opacity(T,P) / cia(T,nu), axis orientation and sanitised name; and an explicit-state breadth-first search over cache-operation histories (set path A|B, set_interpolation, set_memory_mode, get, add, clear) up to depth 5 (thorough 8) on the real OpacityCache / KTableCache / CIACache singletons checks against a dict model that a cached entry is served as the same object without file opens, loads touch only the configured path with bounded open counts, and every path-loaded object interpolates in the currently configured mode.',
   'small tables (2-4 nodes per axis, 3-7 wavenumbers, 1-3 g-points, up to 3 HITRAN blocks); h5py, pickle and astropy trusted; Exo-Transmit and pickle unit conventions as the readers document them; wavenumber sub-grid requests left to C13; memory mode and eager loading are not part of the statement')
 
+T('C06',
+  'bounded exhaustive enumeration (small scope) of the real callbacks captured by recording sampler doubles, against an independently built forward model + own overlap-binning / Gaussian-likelihood reference; exhaustive fault sequences',
+  "Model checking over inputs, configurations and fault sequences: all fitted subsets of size 1-3 over 3 temperature-profile kinds x prior letters x 6 bin layouts x 2 error letters x {offset, exact} observations, each through all three wrappers (nestle, MultiNest, PolyChord; callbacks captured by doubles that reproduce each sampler's calling convention) on the full {0,1/4,1/2,3/4,1}^d unit-cube lattice; the prior callback must equal the per-parameter inverse CDF in parameter order and the likelihood callback -sum log(sigma sqrt(2pi)) - chi^2/2 of an independently built model binned by an own overlap reference; every sequence of length <=3 (thorough 4) over valid and invalid vectors (mixing ratios above one, inverted nodes, zero opacity): invalid never raises and never gives a finite value, and the next valid vector gives the value of a fresh optimiser.",
+  'MultiNest/PolyChord not installed: wrappers driven by doubles reproducing their calling conventions; forward model (C01) and observation object (C17) trusted; 3 layers, 91 native points, <=4 bins')
+
+T('C09',
+  "bounded exhaustive enumeration of complete Optimizer.fit() runs on sampler doubles that emit enumerated sample sets in each sampler's native output format, against own weighted-quantile/mean references and an independently built model",
+  "Bounded exhaustive model checking of posterior post-processing: 7 sampler letters (nestle, MultiNest multimodal / not, PolyChord clustered / not) x n<=3 (thorough 5) samples x every weight vector of {0,1,2,3}^n minus all-zero (ties and zeros) x per-dimension value permutations x fitted d=1..3 x 4 derived selections x every 2-mode split; stored traces and weights must be the double's arrays element for element, value/sigma_m/sigma_p the weighted 50, 50-16, 84-50 % quantiles, MAP the heaviest sample, mean the weighted mean, the stored spectrum the independent model at the MAP binned by the overlap reference, profiles those of the median, derived traces one entry per sample in sample order.",
+  "MultiNest MAP/mean/sigma are the sampler's own statistics - pass-through only; the PolyChord double ranks likelihood like weight; one process (the rank split is C18); sigma_fraction=1; external samplers replaced by doubles")
+
 
 def main():
     props = [json.loads(l) for l in open(os.path.join(VERIF, 'properties.jsonl'))]
